@@ -86,6 +86,12 @@ func nullCountStats(leaf *pqfile.Node, defs []uint8, vals []pqfile.Val, rng *ran
 	return &v
 }
 
+// PageSrc is what a foreign page was built from.
+type PageSrc struct {
+	Reps, Defs []uint8
+	Vals       []pqfile.Val
+}
+
 // BuildForeign writes recs (split into row groups by part) with the reference
 // writer, drawing every encoding freedom from rng. Returns the file, the
 // choices, and per (row group, column) the triples for reuse.
@@ -186,7 +192,15 @@ func BuildForeign(sc *dremel.Schema, recs []*dremel.Tree, part []int, rng *rand.
 					return nil, ch, err
 				}
 				p := pqfile.WPage{Type: pqfile.PData, NumValues: int32(len(pts)), Body: body, Enc: pqfile.EPlain, DefEnc: pqfile.ERLE, RepEnc: pqfile.ERLE,
-					Stats: nullCountStats(&leaf.Node, defs, vals, rng), WithCRC: rng.Intn(5) == 0, SnappyLiteral: rng.Intn(3) == 0, GzipLevel: rng.Intn(4), LongForm: rng.Intn(6) == 0}
+					Aux: &PageSrc{Reps: reps, Defs: defs, Vals: vals}, Stats: nullCountStats(&leaf.Node, defs, vals, rng), WithCRC: rng.Intn(5) == 0, SnappyLiteral: rng.Intn(3) == 0, GzipLevel: rng.Intn(4), LongForm: rng.Intn(6) == 0}
+				// a column without levels stores none, whatever the header says about their
+				// encoding (parquet-mr wrote BIT_PACKED there for years)
+				if leaf.MaxRep == 0 && rng.Intn(2) == 0 {
+					p.RepEnc = pqfile.EBitPacked
+				}
+				if leaf.MaxDef == 0 && rng.Intn(2) == 0 {
+					p.DefEnc = pqfile.EBitPacked
+				}
 				if rng.Intn(8) == 0 {
 					p.ExtraFields = append(p.ExtraFields, thriftc.F(20, thriftc.I32(7)), thriftc.F(21, thriftc.Str("future")))
 				}
